@@ -222,7 +222,10 @@ def parse_version_list(xml_version_list):
             raise HedFileError(HedExceptions.SCHEMA_VERSION_INVALID,
                                f"Must specify schema version by number, found no version on {xml_version_list} schema.",
                                filename=None)
-        if version in out_versions[schema_namespace]:
+        # The same library must not be loaded twice under one prefix, whatever its version number.
+        library_name = version.rpartition("_")[0]
+        loaded_libraries = [loaded.rpartition("_")[0] for loaded in out_versions[schema_namespace]]
+        if version in out_versions[schema_namespace] or (library_name and library_name in loaded_libraries):
             raise HedFileError(HedExceptions.SCHEMA_DUPLICATE_LIBRARY,
                                f"Attempting to load same library '{version}' twice: {out_versions[schema_namespace]}",
                                filename=None)
